@@ -1,6 +1,6 @@
 // Mode "render" of verif_genrun (property C19): what the renderers print for generated messages.
 //
-//	verif_genrun render <seed> <states per message> [<pages per package>]
+//	verif_genrun render <seed> <states per message> [<pages per package> [<retained states per message>]]
 //
 // For every message of every registered package a set of states is reached with
 // UnmarshalFrame(payload) on a fresh, Reset() instance: all-zero, all-one, for every signal the
@@ -13,6 +13,8 @@
 //
 //	R <pkg> <msg index> <payload> <frame data> T=<cantext.Marshal> C=<cantext.MarshalCompact>
 //	    S=<cantext.MessageString> G=<msg.String()> J=<canjson.Marshal | E on error> V=<json.Valid 0|1>
+//	RR ...  the same as R, but on a message INSTANCE that was rendered before in another state and was then
+//	    taken to this state by Reset() + UnmarshalFrame(payload) (a renderer must not remember an instance)
 //	P <pkg> <url path> <entries> K=<status code> H=<Content-Type> B=<response body>
 //	    entries = comma separated <wrapper>:<msg index>:<payload>; wrapper p = the generated message
 //	    type itself, r = with ReceiveTime() (zero time), t0/t1 = with TransmitTime() (zero time) and
@@ -20,18 +22,52 @@
 //	    generated <Node>_Rx_/<Node>_Tx_ message types provide them. Only zero times are used, so the
 //	    page carries no time-dependent text ("Received: never").
 //	    The body is what candebug.ServeMessagesHTTP wrote to an httptest.ResponseRecorder for
-//	    httptest.NewRequest(GET, <url path>).
+//	    httptest.NewRequest(GET, <url path>[?query]); a query (never part of URL.Path) is added to some.
+//
+// Call patterns beyond "render once, compare at once" (facts about Go memory and about how callers
+// use the API; per package, after the R lines, <retained states per message> random states per message,
+// the (message, state) items in shuffled order so that consecutive calls render different messages):
+//
+//	A <pkg> <msg index> <payload> <signal index | -> <renderer> <later> <copy> <now>
+//	    RETAINED results. Every value returned by cantext.Marshal, MarshalCompact, MessageString,
+//	    msg.String(), canjson.Marshal and by AppendSignal / AppendSignalCompact (every signal) / AppendID /
+//	    AppendSender / AppendSendType / AppendCycleTime / AppendDelayTime / AppendFrame called with a nil
+//	    buffer is kept (the []byte / string itself) together with a copy taken when it was returned, while
+//	    all other items of the package are rendered, the B and AC phases run, every item is rendered a
+//	    second time from the SAME message value (renderer "<name>#2") and the debug pages are served.
+//	    At the end of the package <now> = the bytes the kept value holds then; <later> = number of
+//	    results obtained after it.
+//	AP <pkg> <url path> <entries> <later> <copy> <now>     the same for the HTTP response bodies
+//	AF <pkg> <msg index> <payload> <frame before> <frame after>
+//	    msg.Frame() before the first and after the last rendering of an item (rendering must not change
+//	    the message)
+//	AC <pkg> <msg index> <payload> <renderer> <calls> <distinct results, comma separated, at most 4>
+//	    CONCURRENT: 4 goroutines, each with its own message values (items dealt round-robin), render
+//	    Marshal, MarshalCompact, MessageString, canjson.Marshal and AppendSignal(nil, first signal) of
+//	    their items, yield, and keep every result until all goroutines are done; then the distinct byte
+//	    strings each (item, renderer) produced are listed.
+//	B <pkg> <msg index> <payload> <signal index | -> <function> <spare> <prefix> <prefix after> <result | E>
+//	    Append* called with buf = a random non-empty-or-empty PREFIX of len n in a backing array of capacity
+//	    n+<spare> (spare capacity pre-filled with 0xAA): <prefix after> = the first n bytes of the caller's
+//	    backing array after the call, <result> = the returned slice (E = the call panicked).
+//	BF <id> <len> <ext> <rem> <data> <spare> <prefix> <prefix after> <result | E>
+//	    cantext.AppendFrame on arbitrary frames (remote, extended, Length up to 15: Frame.String panics
+//	    on data frames longer than 8).
 package main
 
 import (
+	"bytes"
 	"encoding/hex"
 	"encoding/json"
 	"fmt"
 	"math/rand"
 	"net/http"
 	"net/http/httptest"
+	"runtime"
+	"sort"
 	"strconv"
 	"strings"
+	"sync"
 	"time"
 
 	"go.einride.tech/can"
@@ -105,6 +141,10 @@ func c19Reach(d dispatcher, md *descriptor.Message, payload can.Data) generated.
 }
 
 func c19RenderLine(pn string, mi int, payload can.Data, msg generated.Message) {
+	c19RenderLineKind("R", pn, mi, payload, msg)
+}
+
+func c19RenderLineKind(kind, pn string, mi int, payload can.Data, msg generated.Message) {
 	j, err := canjson.Marshal(msg)
 	js := c19Hex(j)
 	if err != nil {
@@ -118,8 +158,291 @@ func c19RenderLine(pn string, mi int, payload can.Data, msg generated.Message) {
 	if st, ok := msg.(fmt.Stringer); ok {
 		g = c19Hex([]byte(st.String()))
 	}
-	fmt.Fprintf(out, "R %s %x %s %s T=%s C=%s S=%s G=%s J=%s V=%d\n", pn, mi, hexData(payload), hexData(msg.Frame().Data),
+	fmt.Fprintf(out, "%s %s %x %s %s T=%s C=%s S=%s G=%s J=%s V=%d\n", kind, pn, mi, hexData(payload), hexData(msg.Frame().Data),
 		c19Hex(cantext.Marshal(msg)), c19Hex(cantext.MarshalCompact(msg)), c19Hex([]byte(cantext.MessageString(msg))), g, js, valid)
+}
+
+// ---- retained results ------------------------------------------------------------------------
+
+type c19Kept struct {
+	head string  // "A <pkg> <mi> <payload> <si> <renderer>" or "AP <pkg> <path> <ents>"
+	b    []byte  // the returned slice itself (nil when the result was a string)
+	s    *string // the returned string itself
+	copy []byte  // copy taken when it was returned
+}
+
+type c19Keeper struct{ kept []c19Kept }
+
+func (k *c19Keeper) bytes(head string, b []byte) {
+	k.kept = append(k.kept, c19Kept{head: head, b: b, copy: append([]byte(nil), b...)})
+}
+
+func (k *c19Keeper) str(head string, s string) {
+	k.kept = append(k.kept, c19Kept{head: head, s: &s, copy: []byte(strings.Clone(s))})
+}
+
+func (k *c19Keeper) flush() {
+	n := len(k.kept)
+	for i, e := range k.kept {
+		now := e.b
+		if e.s != nil {
+			now = []byte(*e.s)
+		}
+		fmt.Fprintf(out, "%s %d %s %s\n", e.head, n-1-i, c19Hex(e.copy), c19Hex(now))
+	}
+	k.kept = nil
+}
+
+type c19Item struct {
+	mi      int
+	md      *descriptor.Message
+	payload can.Data
+	msg     generated.Message
+	before  can.Frame
+}
+
+func c19Head(pn string, it *c19Item, si int, renderer string) string {
+	sx := "-"
+	if si >= 0 {
+		sx = strconv.Itoa(si)
+	}
+	return fmt.Sprintf("A %s %x %s %s %s", pn, it.mi, hexData(it.payload), sx, renderer)
+}
+
+// every bytes/string returning entry point on one item; suffix "" or "#2"
+func c19RenderKeep(k *c19Keeper, pn string, it *c19Item, suffix string, appends bool) {
+	msg := it.msg
+	k.bytes(c19Head(pn, it, -1, "Marshal"+suffix), cantext.Marshal(msg))
+	k.bytes(c19Head(pn, it, -1, "MarshalCompact"+suffix), cantext.MarshalCompact(msg))
+	k.str(c19Head(pn, it, -1, "MessageString"+suffix), cantext.MessageString(msg))
+	if st, ok := msg.(fmt.Stringer); ok {
+		k.str(c19Head(pn, it, -1, "String"+suffix), st.String())
+	}
+	if j, err := canjson.Marshal(msg); err == nil {
+		k.bytes(c19Head(pn, it, -1, "canjson.Marshal"+suffix), j)
+	}
+	if !appends {
+		return
+	}
+	d := msg.Frame().Data
+	md := msg.Descriptor()
+	for si, sg := range md.Signals {
+		k.bytes(c19Head(pn, it, si, "AppendSignal"+suffix), cantext.AppendSignal(nil, sg, d))
+		k.bytes(c19Head(pn, it, si, "AppendSignalCompact"+suffix), cantext.AppendSignalCompact(nil, sg, d))
+	}
+	for _, fn := range c19MsgAppends {
+		k.bytes(c19Head(pn, it, -1, fn.name+suffix), fn.f(nil, md))
+	}
+	k.bytes(c19Head(pn, it, -1, "AppendFrame"+suffix), cantext.AppendFrame(nil, msg.Frame()))
+}
+
+var c19MsgAppends = []struct {
+	name string
+	f    func([]byte, *descriptor.Message) []byte
+}{
+	{"AppendID", cantext.AppendID},
+	{"AppendSender", cantext.AppendSender},
+	{"AppendSendType", cantext.AppendSendType},
+	{"AppendCycleTime", cantext.AppendCycleTime},
+	{"AppendDelayTime", cantext.AppendDelayTime},
+}
+
+// ---- Append* onto a caller's prefix ----------------------------------------------------------
+
+// returns prefix, the first len(prefix) bytes of the caller's array after the call, the result
+func c19WithPrefix(rng *rand.Rand, call func(buf []byte) []byte) (spare int, prefix, after, res []byte, panicked bool) {
+	n := []int{0, 1, 2, 5, 13, 40}[rng.Intn(6)]
+	spare = []int{0, 1, 3, 16, 64, 600}[rng.Intn(6)]
+	// half of the prefixes are random bytes, half are what callers really have in the buffer: text
+	// ending in a separator
+	var text []byte
+	if rng.Intn(2) == 0 {
+		text = []byte([]string{" ", "\n", "{", "x: ", "a: 1, ", "Name\n\t", "a=b;  ", "0x", "1.5", "\x00"}[rng.Intn(10)])
+		n = len(text)
+	}
+	arr := make([]byte, n+spare)
+	for i := range arr {
+		if i < n {
+			arr[i] = byte(rng.Intn(256))
+		} else {
+			arr[i] = 0xAA
+		}
+	}
+	copy(arr, text)
+	prefix = append([]byte(nil), arr[:n]...)
+	func() {
+		defer func() {
+			if r := recover(); r != nil {
+				panicked = true
+			}
+		}()
+		res = call(arr[:n:len(arr)])
+	}()
+	after = append([]byte(nil), arr[:n]...)
+	return
+}
+
+func c19ResHex(res []byte, panicked bool) string {
+	if panicked {
+		return "E"
+	}
+	return c19Hex(res)
+}
+
+func c19PrefixLines(rng *rand.Rand, pn string, it *c19Item) {
+	msg := it.msg
+	d := msg.Frame().Data
+	md := msg.Descriptor()
+	line := func(si int, fn string, call func(buf []byte) []byte) {
+		spare, prefix, after, res, pan := c19WithPrefix(rng, call)
+		sx := "-"
+		if si >= 0 {
+			sx = strconv.Itoa(si)
+		}
+		fmt.Fprintf(out, "B %s %x %s %s %s %d %s %s %s\n", pn, it.mi, hexData(it.payload), sx, fn, spare,
+			c19Hex(prefix), c19Hex(after), c19ResHex(res, pan))
+	}
+	for si, sg := range md.Signals {
+		sg := sg
+		line(si, "AppendSignal", func(buf []byte) []byte { return cantext.AppendSignal(buf, sg, d) })
+		line(si, "AppendSignalCompact", func(buf []byte) []byte { return cantext.AppendSignalCompact(buf, sg, d) })
+	}
+	for _, fn := range c19MsgAppends {
+		fn := fn
+		line(-1, fn.name, func(buf []byte) []byte { return fn.f(buf, md) })
+	}
+	f := msg.Frame()
+	line(-1, "AppendFrame", func(buf []byte) []byte { return cantext.AppendFrame(buf, f) })
+}
+
+func c19FrameLines(rng *rand.Rand, n int) {
+	for i := 0; i < n; i++ {
+		f := can.Frame{ID: rng.Uint32() & 0x1fffffff, Length: uint8(rng.Intn(9)), Data: randPayload(rng)}
+		switch rng.Intn(6) {
+		case 0:
+			f.IsRemote = true
+		case 1:
+			f.IsExtended = true
+		case 2:
+			f.Length = uint8(9 + rng.Intn(7))
+		case 3:
+			f.Length, f.IsRemote = uint8(9+rng.Intn(7)), true
+		}
+		if !f.IsExtended {
+			f.ID &= 0x7ff
+		}
+		spare, prefix, after, res, pan := c19WithPrefix(rng, func(buf []byte) []byte { return cantext.AppendFrame(buf, f) })
+		fmt.Fprintf(out, "BF %s %d %s %s %s\n", frameStr(f), spare, c19Hex(prefix), c19Hex(after), c19ResHex(res, pan))
+	}
+}
+
+// ---- concurrent rendering --------------------------------------------------------------------
+
+type c19Pending struct {
+	item     int
+	renderer string
+	b        []byte
+	s        *string
+}
+
+func c19Concurrent(pn string, d dispatcher, items []*c19Item, rounds int) (lines []string) {
+	const workers = 4
+	if len(items) == 0 {
+		return nil
+	}
+	pend := make([][]c19Pending, workers)
+	var wg sync.WaitGroup
+	for w := 0; w < workers; w++ {
+		// each goroutine renders its own message values
+		var mine []int
+		var msgs []generated.Message
+		for i := w; i < len(items); i += workers {
+			if m := c19Reach(d, items[i].md, items[i].payload); m != nil {
+				mine = append(mine, i)
+				msgs = append(msgs, m)
+			}
+		}
+		wg.Add(1)
+		go func(w int) {
+			defer wg.Done()
+			for r := 0; r < rounds; r++ {
+				for x, i := range mine {
+					msg := msgs[x]
+					p := &pend[w]
+					*p = append(*p, c19Pending{item: i, renderer: "Marshal", b: cantext.Marshal(msg)})
+					*p = append(*p, c19Pending{item: i, renderer: "MarshalCompact", b: cantext.MarshalCompact(msg)})
+					runtime.Gosched()
+					s := cantext.MessageString(msg)
+					*p = append(*p, c19Pending{item: i, renderer: "MessageString", s: &s})
+					if j, err := canjson.Marshal(msg); err == nil {
+						*p = append(*p, c19Pending{item: i, renderer: "canjson.Marshal", b: j})
+					}
+					if sg := msg.Descriptor().Signals; len(sg) > 0 {
+						*p = append(*p, c19Pending{item: i, renderer: "AppendSignal", b: cantext.AppendSignal(nil, sg[0], msg.Frame().Data)})
+					}
+					first := len(*p) - 5
+					if first < 0 {
+						first = 0
+					}
+					var copies [][]byte
+					for _, e := range (*p)[first:] {
+						copies = append(copies, append([]byte(nil), e.b...))
+					}
+					runtime.Gosched()
+					// look at the results of this step again while the other goroutines keep rendering
+					// (a value that is written by someone else in between shows up here, and as a data
+					// race under the race detector)
+					for x, e := range (*p)[first:] {
+						if e.b != nil && !bytes.Equal(e.b, copies[x]) {
+							*p = append(*p, c19Pending{item: e.item, renderer: e.renderer, b: append([]byte(nil), e.b...)})
+						}
+					}
+				}
+			}
+		}(w)
+	}
+	wg.Wait()
+	type key struct {
+		item     int
+		renderer string
+	}
+	seen := map[key]map[string]bool{}
+	calls := map[key]int{}
+	var keys []key
+	for w := 0; w < workers; w++ {
+		for _, e := range pend[w] {
+			k := key{e.item, e.renderer}
+			if seen[k] == nil {
+				seen[k] = map[string]bool{}
+				keys = append(keys, k)
+			}
+			calls[k]++
+			if e.s != nil {
+				seen[k][*e.s] = true
+			} else {
+				seen[k][string(e.b)] = true
+			}
+		}
+	}
+	sort.Slice(keys, func(a, b int) bool {
+		if keys[a].item != keys[b].item {
+			return keys[a].item < keys[b].item
+		}
+		return keys[a].renderer < keys[b].renderer
+	})
+	for _, k := range keys {
+		var rs []string
+		for r := range seen[k] {
+			rs = append(rs, c19Hex([]byte(r)))
+		}
+		sort.Strings(rs)
+		if len(rs) > 4 {
+			rs = rs[:4]
+		}
+		it := items[k.item]
+		lines = append(lines, fmt.Sprintf("AC %s %x %s %s %d %s", pn, it.mi, hexData(it.payload), k.renderer, calls[k], strings.Join(rs, ",")))
+	}
+	return lines
 }
 
 func c19RenderMode(args []string) {
@@ -131,8 +454,9 @@ func c19RenderMode(args []string) {
 		}
 		return def
 	}
-	seed, perMsg, pages := num(0, 1), int(num(1, 8)), int(num(2, 24))
+	seed, perMsg, pages, keepPer := num(0, 1), int(num(1, 8)), int(num(2, 24)), int(num(3, 4))
 	rng := rand.New(rand.NewSource(seed))
+	c19FrameLines(rng, 40)
 	for _, pn := range pkgNames() {
 		d := registry[pn]
 		fmt.Fprintf(out, "PKG %s\n", pn)
@@ -153,6 +477,48 @@ func c19RenderMode(args []string) {
 		}
 		if len(db.Messages) == 0 {
 			continue
+		}
+		// retained results, prefixes, concurrency (see the header)
+		keeper := &c19Keeper{}
+		var items []*c19Item
+		for mi, md := range db.Messages {
+			for i := 0; i < keepPer; i++ {
+				p := randPayload(rng)
+				if i == 0 {
+					if ex := c19ExtremePayloads(rng, md); len(ex) > 0 {
+						p = ex[rng.Intn(len(ex))]
+					}
+				}
+				if msg := c19Reach(d, md, p); msg != nil {
+					items = append(items, &c19Item{mi: mi, md: md, payload: p, msg: msg, before: msg.Frame()})
+				}
+			}
+		}
+		rng.Shuffle(len(items), func(a, b int) { items[a], items[b] = items[b], items[a] })
+		for _, it := range items {
+			c19RenderKeep(keeper, pn, it, "", true)
+		}
+		for i, it := range items {
+			if i%2 == 0 || keepPer > 8 {
+				c19PrefixLines(rng, pn, it)
+			}
+		}
+		acLines := c19Concurrent(pn, d, items, 3)
+		for _, it := range items {
+			c19RenderKeep(keeper, pn, it, "#2", false)
+			fmt.Fprintf(out, "AF %s %x %s %s %s\n", pn, it.mi, hexData(it.payload), strings.ReplaceAll(frameStr(it.before), " ", ","),
+				strings.ReplaceAll(frameStr(it.msg.Frame()), " ", ","))
+		}
+		// the SAME message instances taken to a new state (Reset + UnmarshalFrame) and rendered again:
+		// a rendering must report the state the message has now
+		for _, it := range items {
+			p := randPayload(rng)
+			it.msg.Reset()
+			if err := it.msg.UnmarshalFrame(can.Frame{ID: it.md.ID, Length: it.md.Length, IsExtended: it.md.IsExtended, Data: p}); err != nil {
+				fmt.Fprintf(out, "RR %s %x %s NOSTATE\n", pn, it.mi, hexData(p))
+				continue
+			}
+			c19RenderLineKind("RR", pn, it.mi, p, it.msg)
 		}
 		// debug pages
 		for pg := 0; pg < pages; pg++ {
@@ -224,10 +590,20 @@ func c19RenderMode(args []string) {
 				path = "/debug/" + name[1:]
 			}
 			rec := httptest.NewRecorder()
-			req := httptest.NewRequest(http.MethodGet, path, nil)
+			target := path
+			if rng.Intn(4) == 0 {
+				// a query is not part of URL.Path: it must not influence the selection
+				target = path + "?m=/" + db.Messages[rng.Intn(len(db.Messages))].Name
+			}
+			req := httptest.NewRequest(http.MethodGet, target, nil)
 			candebug.ServeMessagesHTTP(rec, req, msgs)
 			fmt.Fprintf(out, "P %s %s %s K=%d H=%s B=%s\n", pn, c19Hex([]byte(req.URL.Path)), strings.Join(ents, ","),
 				rec.Code, c19Hex([]byte(rec.Header().Get("Content-Type"))), c19Hex(rec.Body.Bytes()))
+			keeper.bytes(fmt.Sprintf("AP %s %s %s", pn, c19Hex([]byte(req.URL.Path)), strings.Join(ents, ",")), rec.Body.Bytes())
+		}
+		keeper.flush()
+		for _, l := range acLines {
+			fmt.Fprintln(out, l)
 		}
 	}
 }
